@@ -74,6 +74,11 @@ type Op struct {
 	MidCompact  bool   `json:"mid_compact,omitempty"`
 	MidOther    int    `json:"mid_other,omitempty"`
 	MidOtherMax uint64 `json:"mid_other_max,omitempty"`
+	// replicate: the node that serves the call is one of several replicas of the leader table - its OWN copy has applied NodeLag entries
+	// fewer than the table when the call starts (a consensus read brings it up to date, a local read does not); Busy: the consensus read
+	// the call starts with is refused with the raft library's transient "system busy" error (read-index queue full)
+	NodeLag uint64 `json:"node_lag,omitempty"`
+	Busy    bool   `json:"busy,omitempty"`
 }
 
 type Case struct {
@@ -86,6 +91,9 @@ type mlog struct {
 	entries []raftpb.Entry
 	applied uint64
 	ever    map[uint64]raftpb.Entry // every entry the log ever held (oracle use: an entry shipped before it was compacted)
+	// the serving node: how far its own copy is behind `applied`, and whether its next consensus read is refused
+	nodeLag uint64
+	busy    bool
 }
 
 func (l *mlog) first() uint64 { return l.marker + 1 }
@@ -184,11 +192,16 @@ func (q fakeQuerier) GetLogReader(uint64) (dragonboat.ReadonlyLogReader, error) 
 type fakeRaft struct{ l *mlog }
 
 func (r fakeRaft) SyncRead(_ context.Context, _ uint64, req interface{}) (interface{}, error) {
+	if r.l.busy {
+		r.l.busy = false
+		return nil, dragonboat.ErrSystemBusy
+	}
+	r.l.nodeLag = 0 // a consensus read waits until the node has applied everything committed before it
 	return r.StaleRead(0, req)
 }
 func (r fakeRaft) StaleRead(_ uint64, req interface{}) (interface{}, error) {
 	if _, ok := req.(fsm.LocalIndexRequest); ok {
-		return &fsm.IndexResponse{Index: r.l.applied}, nil
+		return &fsm.IndexResponse{Index: r.l.applied - min(r.l.nodeLag, r.l.applied)}, nil
 	}
 	return nil, errors.New("unexpected request")
 }
@@ -321,6 +334,16 @@ func genCase(t *rapid.T) Case {
 				if rapid.Bool().Draw(t, "mid.other") {
 					op.MidOther = rapid.IntRange(1, cnt+1).Draw(t, "mid.otheroff")
 					op.MidOtherMax = rapid.SampledFrom(maxSizes).Draw(t, "mid.othermax")
+				}
+			}
+			if kind == "replicate" {
+				switch rapid.IntRange(0, 7).Draw(t, "node") {
+				case 0:
+					op.NodeLag = uint64(rapid.IntRange(1, 4).Draw(t, "node.lag"))
+				case 1:
+					op.NodeLag, op.Busy = uint64(rapid.IntRange(1, 4).Draw(t, "node.lag")), true
+				case 2:
+					op.Busy = true
 				}
 			}
 			c.Ops = append(c.Ops, op)
@@ -470,6 +493,12 @@ func run(c Case, o *vt.Obs) *vt.Failure {
 				return f
 			}
 			o.Label("replicate")
+			if op.NodeLag > 0 {
+				o.Label("replicate-served-by-a-node-whose-own-copy-lags")
+			}
+			if op.Busy {
+				o.Label("replicate-whose-consensus-read-is-refused")
+			}
 		}
 	}
 	// cache interplay coverage: a second pass of queries over every start index with a warm cache
@@ -524,8 +553,15 @@ func checkReplicate(l *mlog, ls *regattaserver.LogServer, who string, stepNo int
 			}
 		}
 	}
+	l.nodeLag, l.busy = op.NodeLag, op.Busy
 	err := ls.Replicate(&regattapb.ReplicateRequest{Table: []byte("t"), LeaderIndex: op.Start}, st)
+	l.nodeLag, l.busy = 0, false
 	move() // a stream shorter than MidAt messages: the writes land right after the call
+	if op.Busy && err != nil && op.Start != 0 && len(st.msgs) == 0 {
+		// the node could not learn the table's applied index: no answer at all is fine (the follower asks again); an ANSWER must be the
+		// right one, whatever the node's own copy says
+		return nil
+	}
 	if op.Start == 0 {
 		if status.Code(err) != codes.InvalidArgument {
 			return vt.Failf(prop+"/replicate-zero-index", stepNo, "%s: leader index 0: err %v", who, err)
